@@ -30,9 +30,22 @@ func (rr *RoundRobinStrategy) NextBackend(r *http.Request) *Backend {
 		return nil
 	}
 
+	// Rotate over the healthy backends only, so that an ejected backend neither
+	// receives traffic nor uses up the caller's retries
+	healthyBackends := make([]*Backend, 0, len(rr.backends))
+	for _, b := range rr.backends {
+		if b.healthy() {
+			healthyBackends = append(healthyBackends, b)
+		}
+	}
+
+	if len(healthyBackends) == 0 {
+		return nil
+	}
+
 	// Get the next index in a thread-safe way
-	idx := atomic.AddUint64(&rr.current, 1) % uint64(len(rr.backends))
-	return rr.backends[idx]
+	idx := atomic.AddUint64(&rr.current, 1) % uint64(len(healthyBackends))
+	return healthyBackends[idx]
 }
 
 // AddBackend adds a backend to the pool
